@@ -55,21 +55,144 @@ var (
 	vC13Srv    *httptest.Server
 	vC13Up     Upgrader
 	vC13ConnCh = make(chan *Conn, 1)
+	vC13Hook   func(c *Conn) // runs in the HTTP handler right after Upgrade returned
+	vC13SegS   int           // read segmentation of the next accepted server-side conn
+	vC13SegSd  uint64
 )
+
+// vC13Seg controls how the byte stream is cut into Read results ("however the transport splits
+// the stream"): mode 0 pass-through, 1 coalescing (a Read waits until the stream is quiet for a
+// few milliseconds and then returns everything that fits, so that e.g. the HTTP 101 response and
+// the frames written right after it arrive in ONE Read), 2 one byte per Read, 3 random cuts.
+type vC13Seg struct {
+	net.Conn
+	mode     int
+	rnd      *vRng
+	mu       sync.Mutex
+	buf      []byte
+	err      error
+	last     time.Time
+	deadline time.Time
+	started  bool
+	reads    int
+}
+
+func (s *vC13Seg) pump() {
+	b := make([]byte, 65536)
+	for {
+		n, err := s.Conn.Read(b)
+		s.mu.Lock()
+		s.buf = append(s.buf, b[:n]...)
+		s.last = time.Now()
+		if err != nil {
+			s.err = err
+		}
+		s.mu.Unlock()
+		if err != nil {
+			return
+		}
+	}
+}
+
+func (s *vC13Seg) SetReadDeadline(t time.Time) error {
+	if s.mode == 0 {
+		return s.Conn.SetReadDeadline(t)
+	}
+	s.mu.Lock()
+	s.deadline = t
+	s.mu.Unlock()
+	return nil
+}
+func (s *vC13Seg) SetDeadline(t time.Time) error {
+	if s.mode == 0 {
+		return s.Conn.SetDeadline(t)
+	}
+	s.SetReadDeadline(t)
+	return s.Conn.SetWriteDeadline(t)
+}
+
+func (s *vC13Seg) Read(p []byte) (int, error) {
+	if s.mode == 0 {
+		return s.Conn.Read(p)
+	}
+	if len(p) == 0 {
+		return 0, nil
+	}
+	s.mu.Lock()
+	if !s.started {
+		s.started = true
+		s.last = time.Now()
+		go s.pump()
+	}
+	s.reads++
+	for {
+		quiet := time.Since(s.last) > 4*time.Millisecond
+		have := len(s.buf)
+		// coalescing: only the first reads of the connection wait for the stream to go quiet
+		if have > 0 && (s.mode != 1 || s.reads > 6 || have >= len(p) || quiet || s.err != nil) {
+			break
+		}
+		if have == 0 && s.err != nil {
+			err := s.err
+			s.mu.Unlock()
+			return 0, err
+		}
+		if !s.deadline.IsZero() && time.Now().After(s.deadline) {
+			s.mu.Unlock()
+			return 0, &netError{msg: "vC13Seg: i/o timeout", timeout: true, temporary: true}
+		}
+		s.mu.Unlock()
+		time.Sleep(200 * time.Microsecond)
+		s.mu.Lock()
+	}
+	n := len(s.buf)
+	switch s.mode {
+	case 2:
+		n = 1
+	case 3:
+		n = 1 + s.rnd.intn(s.rnd.pickInt(2, 7, 64, 700))
+	}
+	if n > len(s.buf) {
+		n = len(s.buf)
+	}
+	if n > len(p) {
+		n = len(p)
+	}
+	copy(p, s.buf[:n])
+	s.buf = s.buf[n:]
+	s.mu.Unlock()
+	return n, nil
+}
+
+type vC13Lis struct{ net.Listener }
+
+func (l *vC13Lis) Accept() (net.Conn, error) {
+	c, err := l.Listener.Accept()
+	if err != nil {
+		return nil, err
+	}
+	vC13SegSd++
+	return &vC13Seg{Conn: c, mode: vC13SegS, rnd: &vRng{s: vC13SegSd * 7919}}, nil
+}
 
 func vC13Start() {
 	if vC13Srv != nil {
 		return
 	}
-	vC13Srv = httptest.NewServer(http.HandlerFunc(func(w http.ResponseWriter, r *http.Request) {
+	vC13Srv = httptest.NewUnstartedServer(http.HandlerFunc(func(w http.ResponseWriter, r *http.Request) {
 		up := vC13Up
 		c, err := up.Upgrade(w, r, nil)
 		if err != nil {
 			vC13ConnCh <- nil
 			return
 		}
+		if vC13Hook != nil {
+			vC13Hook(c)
+		}
 		vC13ConnCh <- c
 	}))
+	vC13Srv.Listener = &vC13Lis{vC13Srv.Listener}
+	vC13Srv.Start()
 }
 
 // ---------------------------------------------------------------- independent RFC 6455 parser
@@ -319,10 +442,15 @@ func vC13Chunks(cs [][]byte) vSx {
 type vC13Tap struct {
 	inner io.Writer
 	log   *[][]byte
+	ids   *[]int // which compression writer produced the chunk (parallel to log), may be nil
+	id    int
 }
 
 func (t *vC13Tap) Write(p []byte) (int, error) {
 	*t.log = append(*t.log, append([]byte{}, p...))
+	if t.ids != nil {
+		*t.ids = append(*t.ids, t.id)
+	}
 	return t.inner.Write(p)
 }
 
